@@ -406,10 +406,12 @@ class Ref:
                 if n == "OTHERS" or n == err.name:
                     saved = self.cur_error
                     self.cur_error = err
-                    # while the handler runs, error@1/@2 describe the error it handles; when it is done, an enclosing handler
-                    # (if this block sits inside one) is again looking at its own error
-                    self.block(hb, env, depth)
-                    self.cur_error = saved
+                    # while the handler runs, error@1/@2 describe the error it handles; when it is done - also when it is left by an
+                    # error of its own - an enclosing handler (if this block sits inside one) is again looking at its own error
+                    try:
+                        self.block(hb, env, depth)
+                    finally:
+                        self.cur_error = saved
                     return
             raise
 
